@@ -92,8 +92,13 @@ func valDescD(v ssa.Value, d int) string {
 		return valDescD(x.X, d+1)
 	case *ssa.ChangeType:
 		return valDescD(x.X, d+1)
+	case *ssa.Lookup:
+		return valDescD(x.X, d+1) + "[" + valDescD(x.Index, d+1) + "]"
+	case *ssa.TypeAssert:
+		return valDescD(x.X, d+1)
 	}
-	return v.Name()
+	// never a register name: obligation keys must not depend on SSA numbering
+	return "<" + strings.TrimPrefix(fmt.Sprintf("%T", v), "*ssa.") + ">"
 }
 
 // storeBetween: some store to the address loaded by v may execute between the
